@@ -18,6 +18,29 @@ static void un_ops(const Interval& x) {
 static void pow_ops(const Interval& x, int n) {
   EMIT("pow %s %d => %s\n", tok(x).c_str(), n, rawtok(pow(x, n)).c_str());
 }
+static void rm(const char* w) { if (fegetround() != FE_UPWARD) { EMIT("roundmode %s => 0\n", w); fesetround(FE_UPWARD); } }
+static void extra_ops(Rng& r, const Interval& x, const Interval& y) {
+  { Interval o1, o2; div2(x, y, o1, o2); rm("div2"); EMIT("div2 %s %s => %s %s\n", tok(x).c_str(), tok(y).c_str(), rawtok(o1).c_str(), rawtok(o2).c_str()); }
+  { Interval o2, z(r.coin() ? Interval::all_reals() : rand_itv(r, 0)); Interval z0 = z; z.div2_inter(x, y, o2); rm("div2_inter");
+    // div2_inter: z0 & (x/y), in two parts: each quotient piece met with z0 must be inside one of the two answers
+    EMIT("div2i %s %s %s => %s %s\n", tok(x).c_str(), tok(y).c_str(), tok(z0).c_str(), rawtok(z).c_str(), rawtok(o2).c_str()); }
+  // saw(p) = p - round(p), exact for |p| < 2^51; point rule on samples of x
+  if (!x.is_empty()) {
+    Interval s = saw(x); rm("saw");
+    double pts[5] = {x.lb(), x.ub(), x.is_unbounded() ? 0.25 : x.mid(), std::nextafter(x.lb(), INFINITY), std::nextafter(x.ub(), -INFINITY)};
+    double lo = 0, hi = 0, am = 0, aM = 0; bool any = false;
+    for (double p : pts) { if (!(p == p) || !x.contains(p) || std::fabs(p) >= 2251799813685248.0) continue;
+      // exact: p - rint(p) with ties to even, as documented (round to nearest integer)
+      double rp = std::nearbyint(p); int old = fegetround(); fesetround(FE_TONEAREST); rp = std::nearbyint(p); fesetround(old);
+      if (std::fabs(p - rp) == 0.5) continue; // the two conventions for halves: skipped
+      double v = p - rp; if (!any) { any = true; lo = hi = v; am = aM = p; } else { if (v < lo) { lo = v; am = p; } if (v > hi) { hi = v; aM = p; } } }
+    if (any) EMIT("encl saw %s %s %s %s:%s => %s\n", tok(x).c_str(), hex(am).c_str(), hex(aM).c_str(), hex(lo).c_str(), hex(hi).c_str(), rawtok(s).c_str());
+    Interval c = chi(x, y, s); rm("chi");
+    // chi(a,b,c) = b if a<=0, c otherwise: the result must contain b (if some a<=0) and c (if some a>0)
+    Interval need = Interval::empty_set(); if (x.lb() <= 0) need |= y; if (x.ub() > 0) need |= s;
+    if (!y.is_empty() && !s.is_empty()) EMIT("encl chi %s %s %s %s => %s\n", tok(x).c_str(), tok(y).c_str(), tok(s).c_str(), tok(need).c_str(), rawtok(c).c_str());
+  }
+}
 static void bin_ops(const Interval& x, const Interval& y) {
   EMIT("add %s %s => %s\n", tok(x).c_str(), tok(y).c_str(), rawtok(x + y).c_str());
   EMIT("sub %s %s => %s\n", tok(x).c_str(), tok(y).c_str(), rawtok(x - y).c_str());
@@ -143,11 +166,13 @@ int main(int argc, char** argv) {
   if (wl == "c01") {
     for (auto& x : LI) { un_ops(x); for (int k = -7; k <= 7; k++) if (full || r.coin(20)) pow_ops(x, k); }
     // lattice pairs: exhaustive when full, sampled otherwise
-    for (auto& x : LI) for (auto& y : LI) if (full || r.below(LI.size()) < 12) bin_ops(x, y);
+    for (auto& x : LI) for (auto& y : LI) if (full || r.below(LI.size()) < 12) { bin_ops(x, y); rm("binary-lattice"); extra_ops(r, x, y); }
     for (long i = 0; i < n; i++) {
       Interval x = rand_itv(r), y = rand_itv(r);
-      un_ops(x); bin_ops(x, y); pow_ops(x, r.range(-9, 9));
-      check_round_up("c01");
+      un_ops(x); rm("unary"); bin_ops(x, y); rm("binary"); pow_ops(x, r.range(-9, 9)); rm("pow");
+      extra_ops(r, x, y);
+      // degenerate and integer-valued arguments (special paths)
+      { double c = r.range(-12, 12) / 4.0; Interval pt(c); extra_ops(r, pt, y); un_ops(pt); rm("unary-point"); bin_ops(pt, y); rm("binary-point"); }
     }
   } else if (wl == "c16") {
     for (auto& x : LI) for (double d : lattice()) if (full || r.coin(10)) set_un(x, d);
